@@ -7,7 +7,7 @@ from hypothesis import strategies as st
 
 VMAX = 10000
 
-SERIES_CLASSES = ["seasonal", "walk", "iid", "constant", "linear", "step", "flat_spikes", "few_values", "extremes", "small", "edge_outlier"]
+SERIES_CLASSES = ["seasonal", "walk", "iid", "constant", "linear", "step", "flat_spikes", "few_values", "extremes", "small", "edge_outlier", "lownoise"]
 GAP_CLASSES = ["none", "isolated", "runs", "leading", "trailing", "lead_trail", "all_but_k", "alternating"]
 
 
@@ -73,6 +73,13 @@ def series(draw, nmin=4, nmax=200, classes=None, vmax=VMAX, n=None):
         where = draw(st.sampled_from(["first", "last", "last", "both"]))
         for q in ([0] if where == "first" else [n - 1] if where == "last" else [0, n - 1]):
             y[q] = _clip(y[q] + draw(st.sampled_from([-1, 1])) * draw(ints(vmax // 10, vmax // 2)), -vmax, vmax)
+    elif cls == "lownoise":  # smooth seasonal curve with residuals of a few units only
+        base = draw(ints(-vmax // 2, vmax // 2))
+        amp = draw(ints(20, vmax // 4))
+        period = draw(st.floats(6.0, 80.0))
+        nz = draw(ints(0, 4))
+        noise = draw(st.lists(ints(-nz, nz), min_size=n, max_size=n))
+        y = [_clip(round(base + amp * math.sin(2 * math.pi * t / period)) + noise[t], -vmax, vmax) for t in range(n)]
     elif cls == "small":  # values around zero: exact zeros and sign changes are frequent
         y = draw(st.lists(ints(-5, 5), min_size=n, max_size=n))
     else:  # extremes
